@@ -6,6 +6,13 @@ CHECKS = {
  "C01": ("generated SVG sets/configs; reference SVG interpreter vs reference COLRv1 interpreter (display trees), Hypothesis", "§4 C01",
          "Generated-input search (Hypothesis, 16 workers) over source sets x configurations; every COLRv1 glyph is re-interpreted from the saved binary by an independent COLR interpreter and compared layer by layer (outline distance, winding, colour at probe points) with an independent SVG interpreter of the source. Sampling, not proof: absence of a violation in N thousand generated fonts.",
          "Trusted: fontTools binary decompilers, the two reference interpreters in vlib (self-tested against fontTools getTransform; SVG semantics cross-checked with resvg), tolerances of DESIGN §3.2."),
+
+ "C15": ("exhaustive enumeration of small colour sets + Hypothesis sets/fonts vs the statement as a predicate", "§4 C15",
+         "The palette function is judged on all 82 160 subsets (size <= 6) of a 21-colour universe (exhaustive over that universe) and on generated larger sets; generated COLRv0/COLRv1 fonts are read back from the binary and every palette/paint colour fact of the statement is checked. Exhaustive only for the small universe; sampling beyond it.",
+         "Trusted: fontTools CPAL/COLR decompilers; own SVG colour parser (PIL CSS table)."),
+ "C16": ("generated affines/gradients at encoder branch boundaries; field-quantised recomposition per COLR spec, compile round trip, colour-at-mapped-point oracle", "§4 C16",
+         "Generated affines (mixture aimed at every branch boundary and range limit of paint.transformed) and gradient geometries; each emitted paint is decoded per the COLR specification after quantising every field to its OpenType type and must reproduce the affine within the propagated quantisation bound, in isolation and after compiling into a real COLR table; out-of-range values must raise. Sampling of a continuous domain with boundary-directed generators.",
+         "Trusted: fontTools COLR compiler/decompiler; the spec formulas in vlib/ref_colr.py (self-tested against fontTools getTransform)."),
 }
 NOT_APPLICABLE = []
 def main():
